@@ -15,7 +15,13 @@ RULE = ("Same descriptor space as C01 (per-component exhaustive pools, the numbe
         "the same bytes; a disagreement is a machinery failure.  Finally the library's reader must open the file.  "
         "TLC also checks on every descriptor that the document the contract demands (Codec!AbstractDoc) is accepted "
         "by the schema automaton.  distinct_nontrivial = distinct (descriptor, d).")
-ASSUMPTIONS = ["writer reuse: the cases of component `reuse` (every edit x second write x obstacle role x id-order token on a "
+ASSUMPTIONS = ["near twins: number tokens with a Codec!NearPairs partner (closer than 1e-10 or differing by the sign of zero, other "
+               "doubles) put near-equal shapes of one kind into one scenario in both orders (occupancies, obstacle vs prediction / "
+               "region shape, group members, two obstacles, two goal states); route \"twin\" writes the near twin of the whole "
+               "scenario first with another writer object (sig suffix @reused-twin); closeness is decided on the exact float bits",
+               "edits of the reuse routes also remove a sign / light (referenced by a lanelet and its stop line) and a lanelet "
+               "(named only as predecessor / successor / adjacent) through the Scenario API",
+               "writer reuse: the cases of component `reuse` (every edit x second write x obstacle role x id-order token on a "
                "world with every component) and a third of the mixed draws write once, edit the scenario in place (Codec!Edit: "
                "add lanelet+sign+light, remove an obstacle, translate the lanelet network, change a light offset, add a planning "
                "problem), write again with the SAME writer object (write_to_file or write_scenario_to_file) and compare the "
